@@ -69,16 +69,24 @@ def listStr (xs : List String) : String := if xs.isEmpty then "-" else String.in
 
 /-- The `<key>.adapt` value (PROTOCOL.md §5, iterator adaptors) from the full list of rendered
     elements: `count;last;skip(1);nth(2);step_by(2);next() then nth(1);next() then count();`
-    `skip(1).count();peekable() peek() for_each;zip of two`. The model has no separate adaptors,
-    they are the list operations. -/
+    `skip(1).count();peekable() peek() for_each;zip of two;`
+    `next() k times then count();next() k times then last()` (k = 0 .. min(n, 20)). The model has
+    no separate adaptors, they are the list operations. -/
 def adaptStr (xs : List String) : String :=
   let opt (o : Option String) : String := o.getD "none"
   let evens := (xs.zipIdx.filter (fun p => p.2 % 2 == 0)).map (·.1)
-  String.intercalate ";" [toString xs.length, opt xs.getLast?, listStr xs.tail, opt xs[2]?,
+  let n := xs.length
+  let ks := List.range (min n 20 + 1)
+  let last := opt xs.getLast?
+  String.intercalate ";" [toString n, last, listStr xs.tail, opt xs[2]?,
     listStr evens, opt xs[2]?,
     -- the rest after one `next()`, `skip(1)`: one element less (truncated subtraction);
     -- `peek()` does not consume; two iterators of the same list zip to its length
-    toString (xs.length - 1), toString (xs.length - 1), listStr xs, toString xs.length]
+    toString (n - 1), toString (n - 1), listStr xs, toString n,
+    -- advanced by k calls of `next()`: `n - k` elements are left, the last one is the last of the
+    -- whole list unless nothing is left
+    String.intercalate "," (ks.map (fun k => toString (n - k))),
+    String.intercalate "|" (ks.map (fun k => if k < n then last else "none"))]
 
 /-- The elements an iterator yields, rendered; `cap` if the model ran out of fuel. -/
 inductive Elems where
@@ -287,6 +295,10 @@ def dumpPacketView (pfx : String) (base : Nat) (p : Packet) (bytes : Bytes) (ful
   o := o ++ dumpHeader pfx p.data (paddingOf p)
   o := o ++ dumpInner pfx base p
   if full then
+    -- the typed view taken out (`try_as`) and wrapped again (`Packet::from`): the same variant
+    match p with
+    | .unknown _ => pure ()
+    | _ => o := o.push (pfx ++ "pfrom.variant", variantName p)
     for k in Kind.all do
       let typed := Fast.kindParse k bytes
       let conv := p.tryAs k
@@ -407,7 +419,12 @@ def dumpView (pfx : String) (kind : PKind) (d : Bytes) : Out :=
     let r := Unknown.parse d
     let o : Out := #[(pfx ++ "res", resP r)]
     match r with
-    | .ok u => o ++ dumpHeader pfx u none ++ dumpUnknownView pfx 0 u
+    | .ok u =>
+      -- `Packet::from(unknown)` and the conversions out of it: the model has one conversion function
+      let pfrom : Out := (Kind.all.map (fun k =>
+        [(pfx ++ "pfrom.as." ++ kindName k, resP (k.parse u)),
+         (pfx ++ "pfrom.aso." ++ kindName k, resP (k.parse u))])).flatten.toArray
+      o ++ dumpHeader pfx u none ++ dumpUnknownView pfx 0 u ++ pfrom
     | _ => o
   | .packet =>
     let r := Fast.packetParse d
